@@ -625,9 +625,19 @@ thread_local! {
     static LAST_PANIC: std::cell::RefCell<String> = const { std::cell::RefCell::new(String::new()) };
 }
 
+thread_local! {
+    static QUIET: std::cell::Cell<bool> = const { std::cell::Cell::new(false) };
+}
+/// Panics on simulated-run threads are observations, not noise: record, do not print.
+pub fn set_quiet(q: bool) {
+    QUIET.with(|c| c.set(q));
+}
 pub fn install_quiet_panic_hook() {
     std::panic::set_hook(Box::new(|info| {
         let msg = format!("{}", info);
+        if !QUIET.try_with(|c| c.get()).unwrap_or(false) {
+            eprintln!("adsim harness panic: {}", msg);
+        }
         let _ = LAST_PANIC.try_with(|p| *p.borrow_mut() = msg);
     }));
 }
